@@ -1,3 +1,525 @@
-use crate::msg_gen::Tier; use crate::rng::Rng; use crate::report::RunReport; use serde_json::Value;
-pub fn gen_c07(_rng: &mut Rng, _tier: Tier) -> Result<Value, serde_json::Error> { Ok(Value::Null) }
-pub fn execute(_s: &Value) -> RunReport { RunReport::default() }
+//! C07 (DESIGN §5): no entry point panics, aborts, overflows the stack or hangs.
+//! Two scenario kinds: the message-fault scenarios of the other profiles re-run with check=C07
+//! plus wire-level faults (kind "msg"), and the *hostile caller* profile (kind "hostile"):
+//! ill-typed selections, claims and path lists handed to honest nodes, holders built from
+//! damaged messages.
+
+use crate::faults::{self, Fault, PayloadEdit, WireFault};
+use crate::gen::{self, GenCfg, Strat};
+use crate::keys;
+use crate::msg::{self, Base, Case, Expand};
+use crate::msg_gen::{self, clock_base, rand_fmt, Tier};
+use crate::report::{RunReport, Violation};
+use crate::rng::{hash_str, mix, Rng};
+use crate::seams;
+use crate::wire::{Fmt, KbEnc, Message};
+use crate::world::{self, HolderHandle, Out, Resolver, World};
+use serde::{Deserialize, Serialize};
+use serde_json::{json, Map, Value};
+use std::collections::{BTreeMap, BTreeSet};
+
+#[derive(Clone, Debug, Serialize, Deserialize, PartialEq)]
+pub enum Src {
+    Lit(String),
+    /// output string of an earlier Issue / Present op
+    Out(usize),
+    /// output of an earlier op, parsed in `fmt`, faulted, re-serialised in `to`, wire-faulted
+    Mutated {
+        of: usize,
+        fmt: Fmt,
+        #[serde(default)]
+        faults: Vec<Fault>,
+        #[serde(default)]
+        wire: Vec<WireFault>,
+        to: Fmt,
+    },
+}
+
+#[derive(Clone, Debug, Serialize, Deserialize, PartialEq)]
+pub enum HOp {
+    Issue {
+        key: String,
+        #[serde(default)]
+        alg: Option<String>,
+        claims: Value,
+        strat: Strat,
+        #[serde(default)]
+        holder_key: Option<String>,
+        decoys: bool,
+        fmt: Fmt,
+    },
+    HolderNew {
+        src: Src,
+        fmt: Fmt,
+    },
+    Present {
+        holder: usize,
+        selection: Map<String, Value>,
+        #[serde(default)]
+        nonce: Option<String>,
+        #[serde(default)]
+        aud: Option<String>,
+        #[serde(default)]
+        key: Option<String>,
+        #[serde(default)]
+        alg: Option<String>,
+    },
+    Verify {
+        src: Src,
+        fmt: Fmt,
+        #[serde(default)]
+        session: msg::Session,
+    },
+}
+
+#[derive(Clone, Debug, Serialize, Deserialize, PartialEq)]
+pub struct HostileScn {
+    pub kind: String,
+    pub check: String,
+    pub entropy_seed: u64,
+    pub clock_base: i64,
+    pub ops: Vec<HOp>,
+}
+
+// ---------------------------------------------------------------------------------------------
+
+fn deep_value(rng: &mut Rng, depth: usize) -> Value {
+    let mut v = gen::gen_leaf(rng, &GenCfg { max_depth: 1, max_nodes: 1, hazard_pm: 200, alphabet: 2, path_safe_names: false });
+    for _ in 0..depth {
+        v = if rng.bool() { json!([v]) } else { json!({ "n": v }) };
+    }
+    v
+}
+
+fn hostile_claims(rng: &mut Rng, now: i64) -> Value {
+    match rng.usize(12) {
+        0 => json!([1, 2, 3]),
+        1 => json!("just a string"),
+        2 => Value::Null,
+        3 => json!(42),
+        4 => json!({}),
+        5 => json!({"iss": 7, "exp": "soon"}),
+        6 => {
+            let d = 1 + rng.usize(63);
+            json!({"iss": "https://issuer-a.example", "exp": now + 3600, "deep": deep_value(rng, d)})
+        }
+        7 => json!({"iss": "https://issuer-a.example", "exp": now + 3600, "_sd": ["x"]}),
+        8 => json!({"iss": "https://issuer-a.example", "exp": now + 3600, "a": [{"...": "x"}], "b": {"...": 1}, "_sd_alg": "md5", "cnf": 5}),
+        _ => {
+            let cfg = GenCfg { max_depth: 2 + rng.usize(5), max_nodes: 6 + rng.usize(30), hazard_pm: 300, alphabet: 2, path_safe_names: false };
+            gen::gen_claims(rng, &cfg, "https://issuer-a.example", now)
+        }
+    }
+}
+
+fn hostile_paths(rng: &mut Rng, claims: &Value) -> Vec<String> {
+    let mut out: Vec<String> = gen::all_paths(claims, rng).into_iter().filter(|_| rng.bool()).map(|p| format!("$.{}", p)).collect();
+    let weird = [
+        "", "$", "$.", "$..", "$.a[", "$.a[]", "$.a[999999999999999999999]", "$.[0]", "$.a.[", "$.a..b", "no-prefix", "$.é[0].😀", "$.a[0][0][0][0]", "$.\u{0}", "$.a]", "$.[", "$.a[-1]", "$.a[0",
+    ];
+    for _ in 0..rng.usize(4) {
+        out.push(rng.pick(&weird).to_string());
+    }
+    if rng.chance(1, 4) {
+        let cfg = GenCfg { max_depth: 1, max_nodes: 1, hazard_pm: 300, alphabet: 2, path_safe_names: false };
+        out.push(format!("$.{}", gen::gen_string(rng, &cfg, true)));
+    }
+    out
+}
+
+/// Mutate a type-consistent selection into an ill-typed one.
+fn hostile_selection(rng: &mut Rng, view: &Value) -> Map<String, Value> {
+    fn mutate(rng: &mut Rng, v: &mut Value, depth: usize) {
+        if rng.chance(1, 5) || depth > 8 {
+            *v = match rng.usize(10) {
+                0 => json!({"unknown": true}),
+                1 => json!([true, true, true, true, true, true, true, true]),
+                2 => json!("string"),
+                3 => json!(1),
+                4 => Value::Null,
+                5 => json!({}),
+                6 => json!([]),
+                7 => json!([[[[true]]]]),
+                8 => json!({"a": {"b": {"c": {"d": true}}}}),
+                _ => json!([{"x": true}, [true], true, false, null, "s", 3]),
+            };
+            return;
+        }
+        match v {
+            Value::Object(o) => {
+                for (_, c) in o.iter_mut() {
+                    mutate(rng, c, depth + 1);
+                }
+                if rng.chance(1, 4) {
+                    o.insert(rng.pick(&["nope", "", "_sd", "...", "iss", "cnf"]).to_string(), rng.pick(&[json!(true), json!({"x": true}), json!([true])]).clone());
+                }
+            }
+            Value::Array(a) => {
+                for c in a.iter_mut() {
+                    mutate(rng, c, depth + 1);
+                }
+                if rng.chance(1, 3) {
+                    for _ in 0..1 + rng.usize(3) {
+                        a.push(rng.pick(&[json!(true), json!({"x": true}), json!([true]), json!(false)]).clone());
+                    }
+                }
+            }
+            _ => {}
+        }
+    }
+    let base = if rng.bool() { gen::select_all(view) } else { gen::gen_selection(rng, view, 800) };
+    let mut v = Value::Object(base);
+    mutate(rng, &mut v, 0);
+    match v {
+        Value::Object(o) => o,
+        _ => json!({"x": {"y": true}}).as_object().cloned().unwrap_or_default(),
+    }
+}
+
+fn garbage(rng: &mut Rng) -> String {
+    let lits = [
+        "", "~", "~~", "~~~", ".", "..", "..~", "a.b.c", "a.b.c~", "a.b~", "a~b", "{}", "[]", "null", "0", "\"\"", "{\"protected\":1}", "{\"protected\":\"\",\"payload\":\"\",\"signature\":\"\",\"disclosures\":[]}",
+        "{\"protected\":\"e30\",\"payload\":\"e30\",\"signature\":\"\",\"disclosures\":[\"\"],\"kb_jwt\":\"\"}", "e30.e30.~", "e30.e30.e30~e30~", "e30.W10.~", "e30.bnVsbA.~", "e30.IiI.~", "eyJhbGciOiJFUzI1NiJ9.e30.~",
+        "eyJhbGciOiJFUzI1NiJ9.eyJpc3MiOjF9.~", "eyJhbGciOiJFUzI1NiJ9.eyJpc3MiOm51bGx9.AA~", ".e30.~", "e30..~", "é.é.é~é~é", "\u{0}~\u{0}", "🙂.🙂.🙂~",
+    ];
+    if rng.chance(2, 3) {
+        return rng.pick(&lits).to_string();
+    }
+    let cfg = GenCfg { max_depth: 1, max_nodes: 1, hazard_pm: 300, alphabet: 2, path_safe_names: false };
+    let mut s = String::new();
+    for _ in 0..1 + rng.usize(6) {
+        s.push_str(&gen::gen_string(rng, &cfg, false));
+        s.push(*rng.pick(&['~', '.', '~', '{', '"', ':']));
+    }
+    s
+}
+
+fn random_wire_faults(rng: &mut Rng) -> Vec<WireFault> {
+    let mut v = Vec::new();
+    for _ in 0..1 + rng.usize(2) {
+        v.push(match rng.usize(8) {
+            0 => WireFault::Truncate(rng.usize(1500)),
+            1 => WireFault::Garbage(garbage(rng)),
+            2 => WireFault::InsertAt { pos: rng.usize(1500), text: rng.pick(&["~", ".", "~~", "\"", "{", "}", "é", "\u{0}", "=", "AAAA", "e30"]).to_string() },
+            3 => WireFault::DeleteRange { pos: rng.usize(1500), len: 1 + rng.usize(40) },
+            4 => WireFault::SwapParts(rng.usize(6), rng.usize(6)),
+            5 => WireFault::DropPart(rng.usize(6)),
+            6 => WireFault::DupPart(rng.usize(6)),
+            _ => WireFault::JsonMember {
+                key: rng.pick(&["protected", "payload", "signature", "disclosures", "kb_jwt"]).to_string(),
+                value: if rng.bool() { None } else { Some(rng.pick(&[json!(null), json!(1), json!([]), json!({}), json!([1]), json!("")]).clone()) },
+            },
+        });
+    }
+    v
+}
+
+pub fn gen_hostile(rng: &mut Rng, _tier: Tier) -> HostileScn {
+    let now = clock_base(rng);
+    let mut ops: Vec<HOp> = Vec::new();
+    let key = rng.pick(&["ecA", "edA", "hsA"]).to_string();
+    let alg = Some(keys::alg_of(&key).to_string());
+    // 1. a well-formed credential to hang hostile holder / selection calls on
+    let cfg = GenCfg { max_depth: 2 + rng.usize(4), max_nodes: 8 + rng.usize(24), hazard_pm: 200, alphabet: rng.usize(3) as u8, path_safe_names: true };
+    let claims = gen::gen_claims(rng, &cfg, "https://issuer-a.example", now);
+    let fmt = rand_fmt(rng);
+    let hk = if rng.bool() { Some(msg_gen::holder_key(rng)) } else { None };
+    ops.push(HOp::Issue { key: key.clone(), alg: alg.clone(), claims: claims.clone(), strat: if rng.bool() { Strat::All } else { gen::gen_strategy(rng, &claims) }, holder_key: hk.clone(), decoys: rng.bool(), fmt });
+    // 2. hostile issuer inputs
+    for _ in 0..2 + rng.usize(3) {
+        let c = hostile_claims(rng, now);
+        let strat = match rng.usize(4) {
+            0 => Strat::All,
+            1 => Strat::Top,
+            2 => Strat::None,
+            _ => Strat::Custom(hostile_paths(rng, &c)),
+        };
+        ops.push(HOp::Issue {
+            key: key.clone(),
+            alg: if rng.chance(1, 8) { Some(rng.pick(&["", "none", "XX", "RS256", "HS256", "EdDSA", "ES384"]).to_string()) } else { alg.clone() },
+            claims: c,
+            strat,
+            holder_key: hk.clone(),
+            decoys: rng.bool(),
+            fmt: rand_fmt(rng),
+        });
+    }
+    let n_issue = ops.len();
+    // 3. holders: from the good credential, from damaged copies, from garbage
+    ops.push(HOp::HolderNew { src: Src::Out(0), fmt });
+    let good_holder = ops.len() - 1;
+    for _ in 0..2 + rng.usize(3) {
+        let of = rng.usize(n_issue);
+        let src = match rng.usize(5) {
+            0 => Src::Lit(garbage(rng)),
+            1 => Src::Mutated { of: 0, fmt, faults: vec![Fault::KeepMask(rng.next_u64())], wire: vec![], to: fmt },
+            2 => Src::Mutated { of: 0, fmt, faults: vec![msg_gen::c03_fault(rng, &[], 0)], wire: vec![], to: rand_fmt(rng) },
+            3 => Src::Mutated { of, fmt: Fmt::Compact, faults: vec![], wire: random_wire_faults(rng), to: Fmt::Compact },
+            _ => Src::Mutated { of: 0, fmt, faults: vec![Fault::ByzPayload { edit: PayloadEdit::FlipNode(rng.usize(30), rng.pick(&[json!(null), json!(1), json!([]), json!({}), json!("x")]).clone()), key: key.clone(), alg: keys::alg_of(&key).into() }], wire: vec![], to: rand_fmt(rng) },
+        };
+        let hfmt = match &src {
+            Src::Mutated { to, .. } => *to,
+            _ => rand_fmt(rng),
+        };
+        ops.push(HOp::HolderNew { src, fmt: if rng.chance(1, 6) { hfmt.other() } else { hfmt } });
+    }
+    let holders: Vec<usize> = (n_issue..ops.len()).collect();
+    // 4. presentations with hostile selections and argument sets
+    for _ in 0..4 + rng.usize(6) {
+        let holder = if rng.bool() { good_holder } else { *rng.pick(&holders) };
+        let selection = match rng.usize(4) {
+            0 => gen::select_all(&claims),
+            1 => gen::gen_selection(rng, &claims, 700),
+            _ => hostile_selection(rng, &claims),
+        };
+        let (nonce, aud, k, a) = match rng.usize(6) {
+            0 | 1 => (None, None, None, None),
+            2 => (Some("n".to_string()), Some("a".to_string()), Some(hk.clone().unwrap_or_else(|| "ecC".into())), None),
+            3 => (Some("n".to_string()), None, None, None),
+            4 => (Some("n".to_string()), Some("a".to_string()), Some("edB".to_string()), Some(rng.pick(&["ES256", "EdDSA", "", "none", "HS256", "nonsense"]).to_string())),
+            _ => (Some(String::new()), Some(String::new()), Some("ecC".to_string()), Some("EdDSA".to_string())),
+        };
+        ops.push(HOp::Present { holder, selection, nonce, aud, key: k, alg: a });
+    }
+    let n_all = ops.len();
+    // 5. verifications of whatever came out, damaged
+    for _ in 0..3 + rng.usize(5) {
+        let of = rng.usize(n_all);
+        let src = match rng.usize(4) {
+            0 => Src::Out(of),
+            1 => Src::Lit(garbage(rng)),
+            _ => Src::Mutated { of, fmt, faults: if rng.bool() { vec![msg_gen::c03_fault(rng, &[], 0)] } else { vec![] }, wire: random_wire_faults(rng), to: rand_fmt(rng) },
+        };
+        let vf = match &src {
+            Src::Mutated { to, .. } => *to,
+            _ => rand_fmt(rng),
+        };
+        let session = match rng.usize(4) {
+            0 => Some((Some("a".to_string()), Some("n".to_string()))),
+            1 => Some((Some("a".to_string()), None)),
+            _ => None,
+        };
+        ops.push(HOp::Verify { src, fmt: vf, session });
+    }
+    HostileScn { kind: "hostile".into(), check: "C07".into(), entropy_seed: rng.next_u64(), clock_base: now, ops }
+}
+
+/// C07 over the message-fault scenarios: reuse another profile's scenario and add wire faults.
+fn gen_msg_c07(rng: &mut Rng, tier: Tier) -> msg::MsgScn {
+    let mut s = match rng.usize(5) {
+        0 => msg_gen::gen_c02(rng, Tier::Quick),
+        1 => msg_gen::gen_c03(rng, Tier::Quick),
+        2 => msg_gen::gen_c04(rng, Tier::Quick),
+        _ => crate::byz::gen_c08(rng, Tier::Quick),
+    };
+    // thin the other profiles' enumerations: their oracles are not evaluated here
+    for c in s.cases.iter_mut() {
+        match &mut c.expand {
+            Some(Expand::CorruptEvery { sample, .. }) => *sample = Some(8),
+            Some(Expand::Subsets { sample, max_n, .. }) => {
+                *max_n = 4;
+                *sample = Some(12);
+            }
+            _ => {}
+        }
+    }
+    let plain = |b: Base, f: Fmt| Case { base: b, faults: vec![], wire: vec![], fmt: f, session: None, resolver: Resolver::Directory, kb_enc: KbEnc::Absent, extra: vec![], expand: None, hold_s: 0 };
+    let bases: Vec<Base> = (0..s.pres.len().min(3)).map(Base::Pres).chain(std::iter::once(Base::Cred(0))).collect();
+    let key = s.issuers[0].key.clone();
+    let alg = s.issuers[0].alg.clone().unwrap_or_else(|| "ES256".into());
+    let stride = match tier {
+        Tier::Quick => 5 + rng.usize(6),
+        Tier::Thorough => 1,
+    };
+    for f in [Fmt::Compact, Fmt::Json] {
+        let b = rng.pick(&bases).clone();
+        let mut c = plain(b, f);
+        c.expand = Some(Expand::TruncateWireEvery { stride });
+        s.cases.push(c);
+    }
+    let mut c = plain(rng.pick(&bases).clone(), Fmt::Json);
+    c.expand = Some(Expand::JsonFlipEvery);
+    s.cases.push(c);
+    let mut c = plain(rng.pick(&bases).clone(), rand_fmt(rng));
+    c.expand = Some(Expand::PayloadFlipEvery { key: key.clone(), alg: alg.clone(), stride: if tier == Tier::Quick { 2 } else { 1 } });
+    s.cases.push(c);
+    // payload lacking iss / exp / both, validly signed
+    for name in ["iss", "exp", "_sd_alg", "cnf"] {
+        let mut c = plain(rng.pick(&bases).clone(), rand_fmt(rng));
+        c.faults.push(Fault::ByzPayload { edit: PayloadEdit::RemoveClaim(name.into()), key: key.clone(), alg: alg.clone() });
+        if rng.bool() {
+            c.session = Some((Some("a".into()), Some("n".into())));
+        }
+        s.cases.push(c);
+        let mut c = plain(rng.pick(&bases).clone(), rand_fmt(rng));
+        c.faults.push(Fault::ByzPayload { edit: PayloadEdit::SetClaim(name.into(), rng.pick(&[json!(null), json!(1), json!([]), json!({}), json!({"jwk": 1}), json!({"jwk": {"kty": "EC"}}), json!(-1), json!(1.5e300)]).clone()), key: key.clone(), alg: alg.clone() });
+        if rng.bool() {
+            c.session = Some((Some("a".into()), Some("n".into())));
+        }
+        s.cases.push(c);
+    }
+    for _ in 0..match tier {
+        Tier::Quick => 24,
+        Tier::Thorough => 96,
+    } {
+        let mut c = plain(rng.pick(&bases).clone(), rand_fmt(rng));
+        c.wire = random_wire_faults(rng);
+        if rng.chance(1, 3) {
+            c.session = Some((Some("a".into()), Some("n".into())));
+        }
+        s.cases.push(c);
+    }
+    s.check = "C07".into();
+    s
+}
+
+pub fn gen_c07(rng: &mut Rng, tier: Tier) -> Result<Value, serde_json::Error> {
+    if rng.bool() {
+        serde_json::to_value(gen_msg_c07(rng, tier))
+    } else {
+        serde_json::to_value(gen_hostile(rng, tier))
+    }
+}
+
+// ---------------------------------------------------------------------------------------------
+
+pub fn execute(scn_v: &Value) -> RunReport {
+    let scn: HostileScn = match serde_json::from_value(scn_v.clone()) {
+        Ok(s) => s,
+        Err(e) => return RunReport { harness_error: Some(format!("invalid scenario: {}", e)), ..Default::default() },
+    };
+    let mut rep = RunReport::default();
+    seams::activate(scn.entropy_seed, scn.clock_base.max(1_000_000_000), mix(&[scn.entropy_seed, 7]), 1_000_000_000);
+    let mut dir = BTreeMap::new();
+    dir.insert("https://issuer-a.example".to_string(), "ecA".to_string());
+    let mut w = World::new(dir);
+    let n_issuer = w.rt.add_node();
+    let n_holder = w.rt.add_node();
+    let n_ver = w.rt.add_node();
+    let mut outs: Vec<Option<String>> = Vec::new();
+    let mut holders: BTreeMap<usize, HolderHandle> = BTreeMap::new();
+    let mut nontrivial: BTreeSet<u64> = BTreeSet::new();
+    let mut states: BTreeSet<u64> = BTreeSet::new();
+    let mut sigs: BTreeSet<String> = BTreeSet::new();
+    let mut issuers: BTreeMap<String, world::IssuerHandle> = BTreeMap::new();
+
+    let resolve = |src: &Src, outs: &Vec<Option<String>>, w: &mut World, rep: &mut RunReport| -> Option<String> {
+        match src {
+            Src::Lit(s) => Some(s.clone()),
+            Src::Out(i) => outs.get(*i).cloned().flatten(),
+            Src::Mutated { of, fmt, faults: fs, wire, to } => {
+                let s = outs.get(*of).cloned().flatten()?;
+                // the source op's own format is unknown here: try the stated one, then the other
+                let mut m = Message::parse(&s, *fmt).or_else(|| Message::parse(&s, fmt.other()))?;
+                for f in fs {
+                    if faults::apply(f, &mut m, &[], w, seams::clock_s()) {
+                        rep.count(&format!("fault.{}", f.kind()));
+                    }
+                }
+                let mut out = match to {
+                    Fmt::Compact => m.to_compact(),
+                    Fmt::Json => m.to_json(KbEnc::Absent, &[]),
+                };
+                for wf in wire {
+                    let n = faults::apply_wire(wf, &out);
+                    if n != out {
+                        rep.count(&format!("fault.{}", wf.kind()));
+                    }
+                    out = n;
+                }
+                Some(out)
+            }
+        }
+    };
+
+    for (i, op) in scn.ops.iter().enumerate() {
+        let (entry, class, panic): (&str, &'static str, Option<crate::rt::PanicInfo>) = match op {
+            HOp::Issue { key, alg, claims, strat, holder_key, decoys, fmt } => {
+                let ik = format!("{}|{:?}", key, alg);
+                let h = issuers.entry(ik).or_insert_with(|| World::new_issuer(key, alg.clone())).clone();
+                let o = w.issue(n_issuer, &h, key, claims, strat, holder_key.as_deref(), *decoys, *fmt);
+                nontrivial.insert(hash_str(&format!("issue|{}|{:?}", claims, strat)));
+                rep.evaluations += 1;
+                let r = (o.class(), if let Out::Panic(p) = &o { Some(p.clone()) } else { None });
+                outs.push(o.ok().cloned());
+                ("issuer", r.0, r.1)
+            }
+            HOp::HolderNew { src, fmt } => {
+                let Some(s) = resolve(src, &outs, &mut w, &mut rep) else {
+                    outs.push(None);
+                    continue;
+                };
+                let o = w.holder_new(n_holder, &s, *fmt);
+                nontrivial.insert(hash_str(&format!("holder_new|{}|{:?}", s, fmt)));
+                rep.evaluations += 1;
+                let r = (o.class(), if let Out::Panic(p) = &o { Some(p.clone()) } else { None });
+                if let Out::Ok(h) = o {
+                    holders.insert(i, h);
+                }
+                outs.push(None);
+                ("holder_new", r.0, r.1)
+            }
+            HOp::Present { holder, selection, nonce, aud, key, alg } => {
+                let Some(h) = holders.get(holder).cloned() else {
+                    outs.push(None);
+                    continue;
+                };
+                let o = w.present_raw(n_holder, &h, selection, nonce.clone(), aud.clone(), key.clone(), alg.clone());
+                nontrivial.insert(hash_str(&format!("present|{}|{}|{:?}", holder, Value::Object(selection.clone()), (nonce, aud, key, alg))));
+                rep.evaluations += 1;
+                let r = (o.class(), if let Out::Panic(p) = &o { Some(p.clone()) } else { None });
+                outs.push(o.ok().cloned());
+                ("present", r.0, r.1)
+            }
+            HOp::Verify { src, fmt, session } => {
+                let Some(s) = resolve(src, &outs, &mut w, &mut rep) else {
+                    outs.push(None);
+                    continue;
+                };
+                let vo = w.verify(n_ver, &s, *fmt, session.clone(), &Resolver::Directory);
+                nontrivial.insert(hash_str(&format!("verify|{}|{:?}|{:?}", s, fmt, session)));
+                rep.evaluations += 1;
+                let o = vo.res().clone();
+                outs.push(None);
+                ("verifier", o.class(), if let Out::Panic(p) = &o { Some(p.clone()) } else { None })
+            }
+        };
+        rep.count(&format!("oracle.c07.{}.{}", entry, class));
+        states.insert(hash_str(&format!("{}|{}|{}", entry, class, format!("{:?}", std::mem::discriminant(op)))));
+        if let Some(p) = panic {
+            rep.count("probe.panic_seen");
+            let sig = format!("panic:{}:{}:{}", entry, msg::short_file(&p.file), msg::panic_class(&p.msg));
+            if sigs.insert(sig.clone()) {
+                let mut trigger = BTreeMap::new();
+                trigger.insert("entry_point".into(), json!(entry));
+                trigger.insert("panic_file".into(), json!(msg::short_file(&p.file)));
+                trigger.insert("panic_line".into(), json!(p.line));
+                trigger.insert("panic_msg".into(), json!(world::trunc(&p.msg, 200)));
+                let mut red = scn.clone();
+                red.ops.truncate(i + 1);
+                rep.violations.push(Violation {
+                    property: "C07".into(),
+                    clause: "no-panic".into(),
+                    signature: sig,
+                    trigger,
+                    detail: json!({"entry_point": entry, "op_index": i, "panic": format!("{}:{}: {}", p.file, p.line, world::trunc(&p.msg, 300))}),
+                    scenario: serde_json::to_value(&red).unwrap_or(Value::Null),
+                });
+            }
+        }
+        if rep.sample.is_none() && i >= 2 {
+            rep.sample = Some(json!({"kind": "hostile", "op": op, "outcome": class}));
+        }
+    }
+    rep.nontrivial = nontrivial.into_iter().collect();
+    rep.states = states.into_iter().collect();
+    rep.add("rt.threads_spawned", w.rt.spawned);
+    rep.add("ops", w.ops);
+    w.rt.shutdown();
+    let end = seams::deactivate();
+    rep.loghash = end.loghash;
+    rep.add("seam.entropy_requests", end.ent_requests);
+    rep.add("seam.clock_reads", end.clock_reads);
+    rep.sim_seconds = (end.clock_ns / 1_000_000_000 - scn.clock_base.max(1_000_000_000)).max(0) as u64;
+    rep
+}
